@@ -589,19 +589,18 @@ func init() {
 		Assumptions: []string{"permissive corners accepted either way: both modalities queried but one returned nothing (raw vs fused score); queried modality empty with a non-empty filter set (empty vs score-1 fallback); RRF rank origin 0 or 1", "exact vector sub-index (flat) only"},
 		Shards: func(tier string) []vShard {
 			var sh []vShard
-			maxN := 2
+			maxN := 3
+			extra := 1
 			if tier == "thorough" {
-				maxN = 3
+				extra = 2
 			}
 			for mask := 0; mask < 8; mask++ {
 				cfg := vC05Cfg{V: mask&1 != 0, T: mask&2 != 0, M: mask&4 != 0}
 				for d0 := range vC05Docs {
 					d0 := d0
-					if maxN == 2 && d0%2 == 1 && mask != 7 {
-						continue
-					}
+
 					sh = append(sh, vShard{Name: fmt.Sprintf("%s/first=%d", strings.ReplaceAll(cfg.String(), " ", ","), d0), Run: func(c *vCtx) {
-						vBFSFrom(c, newC05Sys(c, cfg, maxN), maxN+1, []vOp{{K: "AddWithID", A: 1, B: d0}})
+						vBFSFrom(c, newC05Sys(c, cfg, maxN), maxN+extra, []vOp{{K: "AddWithID", A: 1, B: d0}})
 					}})
 				}
 			}
